@@ -46,6 +46,18 @@ def correspondence(ctx, cases, label="render"):
                        json.dumps(mism[:3])[:4000])
     else:
         ctx.obligation(f"correspondence {label}: model and implementation agree byte for byte", True)
+    # extraction is trusted glue: re-evaluate a sample of the same requests inside the kernel
+    k = 40 if ctx.quick() else 400
+    step = max(1, len(cases) // k)
+    pairs = []
+    for c in cases[::step][:k]:
+        r = c["renders"][0]
+        if r.get("model") and not r["model"].startswith(("DECODEFAIL", "PARSEFAIL", "BADREQUEST")) and len(c["dump"]) < 20000:
+            pairs.append((corr.render_request(c, r), r["model"]))
+    if pairs:
+        ok, nreq, detail = corr.kernel_crosscheck(pairs, ctx.prop + label[:3].replace(" ", "_"))
+        ctx.obligation(f"extraction cross-check {label}: vm_compute inside Coq gives the extracted model's answers", ok, detail)
+        ctx.cov["extraction_crosscheck_requests"] = ctx.cov.get("extraction_crosscheck_requests", 0) + nreq
     return mism
 
 
@@ -176,7 +188,7 @@ def eval_substitution(ctx, cases):
 @check("C03")
 def c03(ctx):
     props.check_props_file(ctx, "Props/C03.v")
-    n = 3000 if ctx.quick() else 120000
+    n = 3000 if ctx.quick() else 60000
     cases = harness_cases(ctx, n, depth=6 if ctx.quick() else 8)
     distribution(ctx, cases)
     correspondence(ctx, cases)
@@ -194,7 +206,7 @@ def c03(ctx):
 @check("C04")
 def c04(ctx):
     props.check_props_file(ctx, "Props/C04.v")
-    n = 3000 if ctx.quick() else 120000
+    n = 3000 if ctx.quick() else 60000
     cases = harness_cases(ctx, n, depth=6 if ctx.quick() else 8, extra=["-binds", "0.5", "-repeat", "5"])
     distribution(ctx, cases)
     correspondence(ctx, cases)
@@ -1000,14 +1012,27 @@ def collect_names(node, names, types, info):
     if head == "FuncBuilder" and node[4] == "T" and node[6] not in ("nil", ["list"]):
         info["abort"] = True
     start = 2 if head in HANDLE_STRUCTS else 1
-    for child in node[start:]:
+    skip = set()
+    if head == "InsertBuilder" and len(node) == 15:
+        # parts that a later call has overridden are not part of the composed statement (and have no slot in it):
+        # VALUES rows once a query is set; ON CONFLICT parts without an action; DO UPDATE's SET / WHERE after DoNothing
+        do_update = "s" + b"DO UPDATE".hex()
+        if node[7] != "nil":
+            skip.add(6)
+        if node[11] == "s":
+            skip.update({8, 9, 12, 13})
+        elif node[11] != do_update:
+            skip.update({12, 13})
+    for i, child in enumerate(node[start:], start):
+        if i in skip:
+            continue
         collect_names(child, names, types, info)
 
 
 @check("C09")
 def c09(ctx):
     props.check_props_file(ctx, "Props/C09.v")
-    n = 3000 if ctx.quick() else 100000
+    n = 3000 if ctx.quick() else 60000
     cases = harness_cases(ctx, n, depth=6 if ctx.quick() else 8, hostile=0.22)
     distribution(ctx, cases)
     correspondence(ctx, cases)
@@ -1115,7 +1140,7 @@ def structural_lines(r):
 @check("C14")
 def c14(ctx):
     props.check_props_file(ctx, "Props/C14.v")
-    n = 3000 if ctx.quick() else 120000
+    n = 3000 if ctx.quick() else 60000
     cases = harness_cases(ctx, n, depth=6 if ctx.quick() else 8, hostile=0.05)
     distribution(ctx, cases)
     correspondence(ctx, cases)
@@ -1151,12 +1176,12 @@ def c14(ctx):
 @check("C15")
 def c15(ctx):
     props.check_props_file(ctx, "Props/C15.v")
-    n = 3000 if ctx.quick() else 120000
+    n = 3000 if ctx.quick() else 60000
     cases = harness_cases(ctx, n, depth=6 if ctx.quick() else 8,
                           extra=["-boost", "qrb.InsertInto=25,WithBuilder.InsertInto=25"])
     distribution(ctx, cases)
     correspondence(ctx, cases)
-    ev = nontriv = unlexable = 0
+    ev = nontriv = unlexable = skipped_invalid = 0
     seen = set()
     pairs = []
     for c in cases:
@@ -1164,6 +1189,11 @@ def c15(ctx):
         for v in (False, True):
             pl, pp = byopt[(v, False)], byopt[(v, True)]
             if pl.get("panic") or pp.get("panic") or pl.get("missing") or pp.get("missing"):
+                continue
+            if not v and byopt[(True, False)]["err"] is not None:
+                # validation off AND the statement does not validate: invalid caller-supplied names (an unbalanced
+                # quote, say) are written as they are and swallow the white space that follows - not a statement
+                skipped_invalid += 1
                 continue
             pairs.append((c, v, pl, pp))
     toks = {}
@@ -1191,6 +1221,7 @@ def c15(ctx):
             seen.add((c["dump"], v))
             nontriv += 1
     ctx.cov["both_renderings_unlexable"] = unlexable
+    ctx.cov["validation_off_renderings_of_invalid_statements_not_judged"] = skipped_invalid
     ctx.cov["evaluations"] = ev
     ctx.cov["distinct_nontrivial"] = nontriv
     ctx.cov["rule"] = ("type-directed API programs with INSERT boosted; plain vs pretty rendering for validation on and "
@@ -1273,7 +1304,7 @@ def c01(ctx):
         classify(rep, c["deviations"], "the emitted statement does not read back as the statement that was composed")
 
     # ---- B: the library's own records (type-directed and grammar-shaped API programs): composed parts vs slots
-    n = 3000 if ctx.quick() else 100000
+    n = 3000 if ctx.quick() else 60000
     cases = harness_cases(ctx, n, depth=5 if ctx.quick() else 7, hostile=0.0)
     distribution(ctx, cases)
     correspondence(ctx, cases, label="API programs")
@@ -1450,8 +1481,8 @@ def c02(ctx):
 @check("C20")
 def c20(ctx):
     props.check_props_file(ctx, "Props/C20.v")
-    n = 6000 if ctx.quick() else 300000
-    cases = harness_cases(ctx, n, depth=7 if ctx.quick() else 9, hostile=0.1)
+    n = 6000 if ctx.quick() else 60000
+    cases = harness_cases(ctx, n, depth=7 if ctx.quick() else 8, hostile=0.1)
     distribution(ctx, cases)
     correspondence(ctx, cases)
     ev = 0
